@@ -1,5 +1,5 @@
 import Secp.Proofs.BitsSpec
-import Secp.Proofs.ScalarCodecTies
+import Secp.Proofs.ScalarBitsTies
 /-!
 # C14 — the scalar bit expansion is the exact 256-bit binary representation
 
